@@ -164,7 +164,9 @@ def _rn_sqrt(q, f):
         return 0, True
     # scale so that the integer sqrt has > p+3 bits
     n, d = q.numerator, q.denominator
-    k = 2 * (f.p + 8) + max(0, d.bit_length() - n.bit_length() + 2)
+    # enough bits to place the root relative to any rounding midpoint of the p + extra bit lattices used by the backend
+    # (extra_prec_multiplier up to 20): 22 p + 80 fractional bits
+    k = 2 * (22 * f.p + 80) + max(0, d.bit_length() - n.bit_length() + 2)
     k += k & 1
     num = (n << k) // d
     exact_div = (n << k) % d == 0
